@@ -25,12 +25,14 @@ def _limits(vc, kind, d, rng):
 
 
 def _build(vc, with_limits=True):
-    kind = vc.choice("sampler", ["gibbs", "pca", "hmc", "hmc_fd", "ensemble"])
+    kind = vc.choice("sampler", ["gibbs", "pca", "hmc", "hmc_fd", "ensemble", "metropolis", "ensemble_int"])
     d = vc.int("d", lo=1, hi=3)
     T = vc.choice("temperature", [1.0, 2.5, 0.5])
     seed = vc.int("seed", lo=0, hi=10 ** 6)
     rng = np.random.default_rng(seed)
     bounds = _limits(vc, kind, d, rng) if with_limits else None
+    if kind == "ensemble_int":
+        bounds = None
     post = Posterior(KINDS[seed % len(KINDS)], d, rng)
     if bounds is not None:
         post.mu = 0.5 * (bounds[0] + bounds[1])
@@ -39,11 +41,26 @@ def _build(vc, with_limits=True):
     k2 = kind
     if kind == "hmc_fd":
         k2, kw = "hmc", {"grad": None}
-    if kind == "ensemble":
+    if kind == "ensemble_int":
+        k2, bounds = "ensemble", None
+        kw = {"integer_starts": True}            # starting positions handed over as an integer array
+    if k2 == "ensemble":
         T = 1.0
+    if kind == "metropolis":
+        bounds = None                            # (the base class has no limits of its own)
     eps = 0.1 if bounds is None else 0.1 * float(np.min(bounds[1] - bounds[0]))
-    ch = make_sampler(k2, post, d, rng, temperature=T, bounds=bounds, seed=seed, epsilon=eps, **kw) \
-        if k2 == "hmc" else make_sampler(k2, post, d, rng, temperature=T, bounds=bounds, seed=seed)
+    if k2 == "hmc" and bounds is not None and d == 1 and seed % 2:
+        bounds = ([float(bounds[0][0])], [float(bounds[1][0])])        # one parameter: bounds as length-1 lists
+        post.mu, post.scale = np.array([0.5 * (bounds[0][0] + bounds[1][0])]), np.array([0.5 * (bounds[1][0] - bounds[0][0])])
+        ch = make_sampler(k2, post, d, rng, temperature=T, bounds=(np.array(bounds[0]), np.array(bounds[1])), seed=seed, epsilon=eps, **kw)
+        from inference.mcmc import HamiltonianChain
+        ch = HamiltonianChain(posterior=post, start=ch.theta[-1], grad=kw.get("grad", post.grad), epsilon=eps, temperature=T,
+                              bounds=bounds, display_progress=False)
+        seed_chain(ch, seed)
+        bounds = (np.array(bounds[0]), np.array(bounds[1]))
+    else:
+        ch = make_sampler(k2, post, d, rng, temperature=T, bounds=bounds, seed=seed, epsilon=eps, **kw) \
+            if k2 == "hmc" else make_sampler(k2, post, d, rng, temperature=T, bounds=bounds, seed=seed, **kw)
     return kind, k2, d, T, seed, rng, bounds, post, ch
 
 
@@ -138,7 +155,18 @@ def limits_native(vc):
     lo, hi = bounds
     scale = np.where(np.isfinite(lo), np.maximum(np.maximum(np.abs(lo), np.abs(hi)), hi - lo), 1.0)
     tol = 8 * np.finfo(float).eps * scale
-    if k2 == "gibbs" and vc.bool("non_negative"):
+    if k2 == "gibbs" and bool(np.isfinite(hi[0])) and abs(float(hi[0])) < 1e3 and vc.bool("non_negative_and_boundaries"):
+        # both kinds of limit in force on parameter 0: boundaries reaching below zero AND the non-negativity switch
+        up0 = abs(float(hi[0])) + 0.5
+        ch.set_boundaries(0, (-up0, up0))
+        post.mu[0], post.scale[0] = 0.4 * up0, 0.5 * up0          # keep the target where the allowed interval is
+        ch.params[0].samples[-1] = 0.3 * up0
+        ch.probs[-1] = post.f(ch.get_last()) * ch.inv_temp
+        ch.set_non_negative(0, True)
+        lo = lo.copy(); hi = hi.copy()
+        lo[0], hi[0] = 0.0, up0
+        tol[0] = 8 * np.finfo(float).eps * up0
+    elif k2 == "gibbs" and vc.bool("non_negative"):
         # a non-negativity switch on a parameter without boundaries
         ch.set_boundaries(0, None, remove=True)
         ch.params[0].samples[-1] = abs(ch.params[0].samples[-1])
@@ -153,6 +181,23 @@ def limits_native(vc):
             p.sigma = 1e4 * (1.0 + abs(p.sigma))
         if hasattr(ch, "ES"):
             ch.ES.epsilon *= 30.0
+    # limits stay in force through a save / load round trip
+    if k2 in ("pca", "hmc", "ensemble") and kind != "hmc_fd" and vc.bool("restored_from_file"):
+        import os, tempfile
+        tmpd = tempfile.mkdtemp(prefix="c04_")
+        path = os.path.join(tmpd, "s.npz")
+        try:
+            ch.save(path)
+            kwl = {"posterior": post}
+            if k2 == "hmc":
+                kwl["grad"] = post.grad
+            ch2 = type(ch).load(path, **kwl)
+            seed_chain(ch2, seed + 1)
+            ch = ch2
+        finally:
+            for f_ in os.listdir(tmpd):
+                os.remove(os.path.join(tmpd, f_))
+            os.rmdir(tmpd)
     post.calls.clear()
     try:
         with np.errstate(all="ignore"):
